@@ -245,6 +245,27 @@ func isoExec(st *isoDoc, op Op) (string, string) {
 			if _, err := d.AddImageFromData(tinyPNG(isoTokInt(tok)), tok+".png", document.ImageFormatPNG, 2, 2, cfg); err != nil {
 				return "err"
 			}
+		case "AddImageFile":
+			// every document of the process writes its picture to the same path before inserting it from there; the
+			// pictures differ in pixel size by document and call, and are padded to one encoded length (whatever is
+			// remembered about "the file at this path" must not outlive the call). Sequential stages only.
+			dir := filepath.Join(os.TempDir(), fmt.Sprintf("wzh-iso-%d", os.Getpid()))
+			if err := os.MkdirAll(dir, 0o755); err != nil {
+				fmt.Fprintln(os.Stderr, "iso: cannot create", dir, err)
+				os.Exit(2)
+			}
+			fn := filepath.Join(dir, "shared_chart.png")
+			k := isoTokInt(tok)
+			w, h := 3+k%7, 3+(k/7+2*len(st.name))%5
+			if st.name == "d2" {
+				w, h = h+6, w+1
+			}
+			if err := os.WriteFile(fn, picPad(tinyPNGSize(k, w, h), "png", 640, k), 0o644); err != nil {
+				return "err"
+			}
+			if _, err := d.AddImageFromFile(fn, nil); err != nil {
+				return "err"
+			}
 		case "AddHeader":
 			return errRet(d.AddHeader(document.HeaderFooterTypeDefault, "H"+tok))
 		case "AddFooter":
